@@ -109,6 +109,24 @@ theorem c04_escrow_blocked_and_minters : isBlocked Ment = true ∧ isBlocked Mst
     (Facts.maccPerms.filter (fun e => e.2.contains "minter")).map (·.1) = ["enterprise", "transfer"] := by
   decide
 
+/-- **Whitelist administration touches the whitelist and nothing else**: adding or removing an address - also one whose
+locked eFUND has been spent down to zero - leaves every locked record, every spent record, both running totals, the
+orders and both queues exactly as they were (so the three book equations of `c04_books_balance` and
+`c04_locked_plus_spent_eq_purchased` cannot be disturbed by it). -/
+theorem c04_whitelist_change_leaves_the_books (e e' : EntState) (action : Nat) (addrT signerT : AddrTok)
+    (h : e.whitelistMsg action addrT signerT = .ok e') :
+    e'.locked = e.locked ∧ e'.spent = e.spent ∧ e'.totalLocked = e.totalLocked ∧ e'.totalSpent = e.totalSpent ∧
+    e'.orders = e.orders ∧ e'.raisedQ = e.raisedQ ∧ e'.acceptedQ = e.acceptedQ ∧ e'.params = e.params ∧ e'.nextId = e.nextId := by
+  simp only [EntState.whitelistMsg, bind_eq_ok, pure_eq_ok, require_eq_ok, decodeM_eq_ok] at h
+  obtain ⟨_, _, _, _, _, _, h⟩ := h
+  split at h
+  · simp only [bind_eq_ok, pure_eq_ok, require_eq_ok] at h
+    obtain ⟨_, _, _, _, rfl⟩ := h
+    simp
+  · simp only [bind_eq_ok, pure_eq_ok, require_eq_ok] at h
+    obtain ⟨_, _, _, _, rfl⟩ := h
+    simp
+
 -- non-vacuity: a genesis that satisfies the hypotheses
 def exGen : GenCfg :=
   { timeSec := 1700000000,
